@@ -380,6 +380,9 @@ func (gn *Gen) Call(n *simnode.Node, c *Contract, method string) (*nom.AccountBl
 	if c.Addr == types.SporkContract && t.Choose(4) != 0 {
 		from = g.Spork.Address
 	}
+	if gn.W.Admin != nil && (c.Addr == types.BridgeContract || c.Addr == types.LiquidityContract) && t.Choose(3) != 0 {
+		from = *gn.W.Admin
+	}
 	z := gn.token()
 	var amt *big.Int
 	if t.Choose(3) == 0 {
